@@ -677,6 +677,16 @@ def shrink_candidates(payload: Dict[str, Any]):
     dec = sc.get("decisions")
     if dec:
         n = len(dec)
+        # most interleaving bugs need a handful of switches: first try keeping only a prefix of the
+        # schedule (after it, whoever runs keeps running), then only a suffix, halving each time
+        keep = n // 2
+        while keep >= 1 and n > 8:
+            yield {**payload, "scenario": {**sc, "decisions": dec[:keep]}}
+            keep //= 2
+        drop = n // 2
+        while drop >= 1 and n > 8:
+            yield {**payload, "scenario": {**sc, "decisions": dec[:1] + dec[1 + drop :]}}
+            drop //= 2
         size = n // 2
         while size >= 1:
             for start in range(n - size, 0, -size):
